@@ -94,3 +94,8 @@ pub fn merge_deduplicate_partitioned<'a, T: Copy + PartialEq + 'a, C: Comparator
     }
     (result, ops)
 }
+
+#[cfg(feature = "verif")]
+pub fn verif_merge_deduplicate_partitioned_i64(partitioning: &[Premerge], left: &[i64], right: &[i64]) -> (Vec<i64>, Vec<MergeOp>) {
+    merge_deduplicate_partitioned::<i64, CmpLessThan>(partitioning, left, right)
+}
